@@ -1,4 +1,5 @@
 import warnings
+from numbers import Integral
 
 import numpy as np
 from sklearn.neural_network._stochastic_optimizers import SGDOptimizer
@@ -10,6 +11,8 @@ def check_groups(groups, n_features_in):
         all_indices = []
         for g in groups:
             all_indices.extend(list(g))
+        if not all(isinstance(i, Integral) and not isinstance(i, bool) for i in all_indices):
+            raise ValueError("Indices passed to the groups argument must be integers")
         # Ensure that the indices are valid
         if len(all_indices) > 0 and (min(all_indices) < 0 or max(all_indices) >= n_features_in):
             raise ValueError(f"Indices passed to the groups argument should be contained in [0, {n_features_in}]")
